@@ -346,6 +346,10 @@ func c12Judge(r *h.Result, j c12Judged, tier string, confirm bool) {
 		if o.Status != 0 {
 			r.Count(fmt.Sprintf("status:%dxx", o.Status/100))
 		}
+		if o.Outcome == "flood" {
+			r.Violate("C12/hang/"+cs.Endpoint+"/closed-channel-spin", fmt.Sprintf("%s %s: the service side has ended (query refused) but the request never ends: %s", cs.Method, c12Short(cs.Path), o.Dump),
+				replay(map[string]any{"outcome": o}))
+		}
 		if o.HandlerPanic != "" {
 			r.Count("outcome:handler-panic")
 			r.Violate("C12/crash/"+cs.Endpoint+"/handler-"+c12ClassOf(o.HandlerPanic), fmt.Sprintf("%s %s: the handler panics (%s at %s) and is only caught by net/http: the connection is dropped without an HTTP response", cs.Method, c12Short(cs.Path), o.HandlerPanic, o.Dump),
